@@ -137,10 +137,113 @@ Proof.
     pose proof (Qmax_l (hiD a n) (hiD b n)). pose proof (Qmax_r (hiD a n) (hiD b n)). nra.
 Qed.
 
+(** the same for membership witnesses: [point_ofD] is [point_of] with [dred] after every step *)
+Definition qaddD (a b : VQ) : VQ := V (dred (vx a + vx b)) (dred (vy a + vy b)) (dred (vz a + vz b)).
+Definition qsubD (a b : VQ) : VQ := V (dred (vx a - vx b)) (dred (vy a - vy b)) (dred (vz a - vz b)).
+Definition qscaleD (s : Q) (a : VQ) : VQ := V (dred (s * vx a)) (dred (s * vy a)) (dred (s * vz a)).
+Lemma qaddD_r a b : v2r (qaddD a b) = vadd (v2r a) (v2r b).
+Proof. unfold qaddD, v2r. vunfold. cbn [vx vy vz]. rewrite !dred_r. q2r. reflexivity. Qed.
+Lemma qsubD_r a b : v2r (qsubD a b) = vsub (v2r a) (v2r b).
+Proof. unfold qsubD, v2r. vunfold. cbn [vx vy vz]. rewrite !dred_r. q2r. reflexivity. Qed.
+Lemma qscaleD_r s a : v2r (qscaleD s a) = vscale (Q2R s) (v2r a).
+Proof. unfold qscaleD, v2r. vunfold. cbn [vx vy vz]. rewrite !dred_r. q2r. reflexivity. Qed.
+
+Fixpoint qcombD (ws : list Q) (ps : list VQ) : VQ :=
+  match ws, ps with
+  | w :: ws', p :: ps' => qaddD (qscaleD w p) (qcombD ws' ps')
+  | _, _ => qzero
+  end.
+Lemma qcombD_r : forall ws ps, v2r (qcombD ws ps) = comb (map Q2R ws) (map v2r ps).
+Proof.
+  induction ws as [|w ws IH]; intros [|p ps]; simpl; try apply qzero_r.
+  rewrite qaddD_r, qscaleD_r, IH. reflexivity.
+Qed.
+Fixpoint qsumD (ws : list Q) : Q := match ws with [] => 0%Q | w :: ws' => dred (w + qsumD ws') end.
+Lemma qsumD_r : forall ws, Q2R (qsumD ws) = Convex.sum (map Q2R ws).
+Proof. induction ws as [|w ws IH]; simpl; [apply Q2R_0|]. rewrite dred_r. q2r. rewrite IH. reflexivity. Qed.
+
+Fixpoint point_ofD (s : sh) (w : wit) : option VQ :=
+  match s, w with
+  | Pt c, WPt => Some c
+  | Seg v, WSeg t => if Qle_bool (-1) t && Qle_bool t 1 then Some (qscaleD t v) else None
+  | Ell a1 a2 a3, WEll t1 t2 t3 =>
+    if Qle_bool (t1 * t1 + t2 * t2 + t3 * t3) 1
+    then Some (qaddD (qscaleD t1 a1) (qaddD (qscaleD t2 a2) (qscaleD t3 a3))) else None
+  | Sum a b, WSum w1 w2 =>
+    match point_ofD a w1, point_ofD b w2 with
+    | Some y, Some z => Some (qaddD y z)
+    | _, _ => None
+    end
+  | HullPts ps, WHull ws =>
+    if (length ws =? length ps)%nat && forallb (fun w => Qle_bool 0 w) ws && Qeq_bool (qsumD ws) 1
+    then Some (qcombD ws ps) else None
+  | HullU a b, WHullU t w1 w2 =>
+    if Qle_bool 0 t && Qle_bool t 1 then
+      match point_ofD a w1, point_ofD b w2 with
+      | Some y, Some z => Some (qaddD (qscaleD (1 - t) y) (qscaleD t z))
+      | _, _ => None
+      end
+    else None
+  | _, _ => None
+  end.
+
+Theorem point_ofD_sound : forall s w q, point_ofD s w = Some q -> sem s (v2r q).
+Proof.
+  induction s as [c|v|a1 a2 a3|a IHa b IHb|ps|a IHa b IHb]; intros w q H; destruct w; simpl in H; try discriminate.
+  - inversion H; subst. simpl. reflexivity.
+  - destruct (Qle_bool (-1) t) eqn:E1; [|discriminate]. destruct (Qle_bool t 1) eqn:E2; [|discriminate].
+    simpl in H. inversion H; subst. simpl. exists (Q2R t).
+    apply Qle_bool_R in E1, E2. rewrite Q2R_m1 in E1. rewrite Q2R_1 in E2.
+    split; [lra|]. apply qscaleD_r.
+  - destruct (Qle_bool _ 1) eqn:E; [|discriminate]. inversion H; subst. simpl.
+    exists (Q2R t1), (Q2R t2), (Q2R t3). apply Qle_bool_R in E. q2r. rewrite Q2R_1 in E.
+    split; [lra|]. rewrite !qaddD_r, !qscaleD_r. reflexivity.
+  - destruct (point_ofD a w1) as [y|] eqn:E1; [|discriminate].
+    destruct (point_ofD b w2) as [z|] eqn:E2; [|discriminate].
+    inversion H; subst. simpl. exists (v2r y), (v2r z). repeat split; eauto. apply qaddD_r.
+  - destruct (length ws =? length ps)%nat eqn:E1; [|discriminate].
+    destruct (forallb (fun w => Qle_bool 0 w) ws) eqn:E2; [|discriminate].
+    destruct (Qeq_bool (qsumD ws) 1) eqn:E3; [|discriminate].
+    simpl in H. inversion H; subst. simpl. exists (map Q2R ws).
+    apply Nat.eqb_eq in E1. rewrite !map_length. split; [auto|]. split; [|split].
+    + rewrite forallb_forall in E2. apply Forall_forall. intros r Hr.
+      apply in_map_iff in Hr as (w & <- & Hw). specialize (E2 w Hw). apply Qle_bool_R in E2.
+      rewrite Q2R_0 in E2. exact E2.
+    + apply Qeq_bool_eq in E3. apply Qeq_eqR in E3. rewrite qsumD_r, Q2R_1 in E3. exact E3.
+    + apply qcombD_r.
+  - destruct (Qle_bool 0 t) eqn:E1; [|discriminate]. destruct (Qle_bool t 1) eqn:E2; [|discriminate].
+    simpl in H.
+    destruct (point_ofD a w1) as [y|] eqn:E3; [|discriminate].
+    destruct (point_ofD b w2) as [z|] eqn:E4; [|discriminate].
+    inversion H; subst. simpl. exists (v2r y), (v2r z), (Q2R t).
+    apply Qle_bool_R in E1, E2. rewrite Q2R_0 in E1. rewrite Q2R_1 in E2.
+    repeat split; eauto; try lra.
+    rewrite qaddD_r, !qscaleD_r. q2r. rewrite Q2R_1. reflexivity.
+Qed.
+
+Definition in_shape_tolD (s : sh) (w : wit) (p : VQ) (tau : Q) : bool :=
+  match point_ofD s w with
+  | Some q => Qle_bool 0 tau && Qle_bool (qdotD (qsubD p q) (qsubD p q)) (tau * tau)
+  | None => false
+  end.
+
+Theorem in_shape_tolD_sound s w p tau :
+  in_shape_tolD s w p tau = true ->
+  exists q, sem s q /\ (norm (vsub (v2r p) q) <= Q2R tau)%R.
+Proof.
+  unfold in_shape_tolD. destruct (point_ofD s w) as [q|] eqn:E; [|discriminate].
+  intros H. apply andb_true_iff in H as (H0 & H1).
+  exists (v2r q). split; [eapply point_ofD_sound; eauto|].
+  apply Qle_bool_R in H0, H1. rewrite Q2R_0 in H0. rewrite qdotD_r, qsubD_r in H1. q2r.
+  pose proof (norm_nonneg (vsub (v2r p) (v2r q))) as Hn.
+  pose proof (norm_sq (vsub (v2r p) (v2r q))) as Hs.
+  apply Rsqr_incr_0_var; auto. unfold Rsqr. lra.
+Qed.
+
 (** ** C03: s is within tau of a point of S, and no point of S projects further than
        s.d + sigma (the harness passes sigma = tau, the property's absolute tolerance) *)
 Definition support_cert (S : sh) (w : wit) (s d : VQ) (tau sigma : Q) : bool :=
-  in_shape_tol S w s tau && Qle_bool (hiD S d) (qdotD s d + sigma).
+  in_shape_tolD S w s tau && Qle_bool (hiD S d) (qdotD s d + sigma).
 
 Theorem support_cert_sound S w s d tau sigma :
   support_cert S w s d tau sigma = true ->
@@ -148,7 +251,7 @@ Theorem support_cert_sound S w s d tau sigma :
   (forall x, sem S x -> (dot x (v2r d) <= dot (v2r s) (v2r d) + Q2R sigma)%R).
 Proof.
   unfold support_cert. intros H. apply andb_true_iff in H as (H1 & H2).
-  pose proof (in_shape_tol_sound _ _ _ _ H1) as (q & Hq & Hd).
+  pose proof (in_shape_tolD_sound _ _ _ _ H1) as (q & Hq & Hd).
   split; [eauto|]. intros x Hx.
   pose proof (hiD_sound S d x Hx) as Hh. apply Qle_bool_R in H2. q2r. rewrite qdotD_r in H2. lra.
 Qed.
@@ -207,8 +310,8 @@ Proof. destruct k as [|[|k]]; reflexivity. Qed.
 Definition axis_cert (S : sh) (wlo whi : wit) (lo hi_ : VQ) (tau : Q) (k : nat) : bool :=
   Qle_bool (hiD S (qe k)) (qnth hi_ k + tau) &&
   Qle_bool (hiD S (qneg (qe k))) (- qnth lo k + tau) &&
-  match point_of S whi with Some q => Qle_bool (qnth hi_ k - tau) (qnth q k) | None => false end &&
-  match point_of S wlo with Some q => Qle_bool (qnth q k) (qnth lo k + tau) | None => false end.
+  match point_ofD S whi with Some q => Qle_bool (qnth hi_ k - tau) (qnth q k) | None => false end &&
+  match point_ofD S wlo with Some q => Qle_bool (qnth q k) (qnth lo k + tau) | None => false end.
 
 (** [ws] = the six witnesses (lo_x, hi_x, lo_y, hi_y, lo_z, hi_z) *)
 Definition aabb_cert (S : sh) (ws : wit * wit * wit * wit * wit * wit) (lo hi_ : VQ) (tau : Q) : bool :=
@@ -227,11 +330,11 @@ Proof.
   split; [|split].
   - intros x Hx. pose proof (hiD_sound S (qe k) x Hx) as A. pose proof (hiD_sound S (qneg (qe k)) x Hx) as B.
     rewrite qneg_r in B. rewrite dot_comm, dot_neg_l, dot_comm in B. rewrite dot_qe_r in A, B. lra.
-  - destruct (point_of S whi) as [q|] eqn:E; [|discriminate].
-    exists (v2r q). split; [eapply point_of_sound; eauto|].
+  - destruct (point_ofD S whi) as [q|] eqn:E; [|discriminate].
+    exists (v2r q). split; [eapply point_ofD_sound; eauto|].
     apply Qle_bool_R in H3. q2r. rewrite !qnth_r in H3. exact H3.
-  - destruct (point_of S wlo) as [q|] eqn:E; [|discriminate].
-    exists (v2r q). split; [eapply point_of_sound; eauto|].
+  - destruct (point_ofD S wlo) as [q|] eqn:E; [|discriminate].
+    exists (v2r q). split; [eapply point_ofD_sound; eauto|].
     apply Qle_bool_R in H4. q2r. rewrite !qnth_r in H4. exact H4.
 Qed.
 
@@ -248,13 +351,28 @@ Proof.
 Qed.
 
 (** ** C13 *)
-(** p is at least g away from every point of S (separating direction n) *)
-Definition outside_cert (S : sh) (p n : VQ) (g : Q) : bool := sep_cert S (Pt p) n g.
+(** p is at least g away from every point of S (separating direction n):
+      p.n - sup_S x.n >= g * |n|   with |n| over-approximated *)
+Definition outside_cert (S : sh) (p n : VQ) (g : Q) : bool :=
+  Qle_bool 0 g && Qlt_bool 0 (qdotD n n) && Qle_bool (g * qsqrt_hi (qdotD n n) + hiD S n) (qdotD p n).
 
 Theorem outside_cert_sound S p n g :
   outside_cert S p n g = true -> forall x, sem S x -> (Q2R g <= norm (vsub x (v2r p)))%R.
 Proof.
-  intros H x Hx. apply sep_cert_sound in H. apply (H x (v2r p)); auto. simpl. reflexivity.
+  unfold outside_cert. intros H x Hx.
+  apply andb_true_iff in H as (H & H2). apply andb_true_iff in H as (H0 & H1).
+  apply Qle_bool_R in H0, H2. apply Qlt_bool_R in H1. rewrite Q2R_0 in H0, H1. q2r. rewrite !qdotD_r in *.
+  pose proof (hiD_sound S n x Hx) as Hh.
+  pose proof (qsqrt_hi_sound (qdotD n n)) as Hq. rewrite qdotD_r in Hq.
+  assert (Hnn : norm (v2r n) = R_sqrt.sqrt (dot (v2r n) (v2r n))) by reflexivity.
+  rewrite <- Hnn in Hq.
+  assert (Hpos : (0 < norm (v2r n))%R).
+  { pose proof (norm_nonneg (v2r n)). pose proof (norm_sq (v2r n)). nra. }
+  pose proof (cauchy_schwarz (vsub (v2r p) x) (v2r n)) as Hc. rewrite dot_sub_l in Hc.
+  rewrite norm_sub_comm.
+  pose proof (norm_nonneg (vsub (v2r p) x)) as Hab.
+  assert (Q2R g * norm (v2r n) <= norm (vsub (v2r p) x) * norm (v2r n))%R by nra.
+  apply Rmult_le_reg_r with (norm (v2r n)); auto.
 Qed.
 
 (** p is a point of S (exact membership witness) *)
